@@ -60,15 +60,21 @@ struct Setting {
 }
 
 const CAND: [Option<f64>; 3] = [Some(0.9), None, Some(0.1)];
-const PATTERNS: [&str; 3] = ["25ms-apart", "all-equal", "equal-pairs"];
+const PATTERNS: [&str; 5] = ["25ms-apart", "all-equal", "equal-pairs", "first-n/2+2-equal-rest-apart", "last-n/2+2-equal-rest-apart"];
 
-fn latency(pattern: usize, i: usize) -> Duration {
+/// Patterns 3 and 4 put exactly as many witnesses into one 0 ms cluster as the timing heuristic needs to raise its
+/// flag (n/2 + 2 equal latencies = n/2 + 1 similar neighbours), at the front resp. the back of the sorted set.
+fn latency_n(pattern: usize, i: usize, n: usize) -> Duration {
+    let c = n / 2 + 2;
     match pattern {
         0 => Duration::from_millis(40 + 25 * i as u64),
         1 => Duration::from_millis(50),
-        _ => Duration::from_millis(40 + 25 * (i as u64 / 2)),
+        2 => Duration::from_millis(40 + 25 * (i as u64 / 2)),
+        3 => if i < c { Duration::from_millis(50) } else { Duration::from_millis(100 + 25 * i as u64) },
+        _ => if i + c >= n { Duration::from_millis(50) } else { Duration::from_millis(100 + 25 * i as u64) },
     }
 }
+
 
 fn reasons_mask(r: &CloseGroupValidationResult) -> u8 {
     let mut m = 0u8;
@@ -113,7 +119,7 @@ fn witness_json(types: &[WType], seq: &[usize], pattern: usize, flipped: Option<
                 let w = types[t];
                 json!({"confirms": if flipped == Some(i) { !w.confirm } else { w.confirm }, "trust": w.trust,
                    "region": if w.region < 4 { Some(REGION_NAMES[w.region as usize]) } else { None },
-                   "latency_ms": latency(pattern, i).as_millis() as u64})
+                   "latency_ms": latency_n(pattern, i, seq.len()).as_millis() as u64})
             })
             .collect::<Vec<_>>()
     )
@@ -145,9 +151,12 @@ fn eval_multiset(cx: &Ctx<'_>, types: &[WType], seq: &[usize], resp: &mut [Close
         }
     }
     let n_regions_conf = regions_all_conf.count_ones() as usize;
-    for pattern in 0..3 {
+    for pattern in 0..PATTERNS.len() {
+        if pattern >= 3 && n < 3 {
+            continue;
+        }
         for (i, r) in resp.iter_mut().enumerate() {
-            r.response_latency = latency(pattern, i);
+            r.response_latency = latency_n(pattern, i, n);
         }
         for (si, s) in cx.settings.iter().enumerate() {
             // trusted = trust known and >= configured minimum
@@ -234,7 +243,8 @@ fn eval_multiset(cx: &Ctx<'_>, types: &[WType], seq: &[usize], resp: &mut [Close
                     let mut last = usize::MAX;
                     for i in 0..n {
                         let t = seq[i];
-                        if t == last || types[t].confirm {
+                        // equal types are interchangeable only when their latencies are too (patterns 0-2)
+                        if (pattern < 3 && t == last) || types[t].confirm {
                             continue;
                         }
                         last = t;
